@@ -4091,6 +4091,12 @@ class FlowIR(object):
             if value is not None:
                 return int(value)
 
+        def to_bool(value):
+            # VV: bool("false") is True, strings (e.g. the value of a variable) must go through str_to_bool()
+            if isinstance(value, string_types):
+                return str_to_bool(value)
+            return bool(value)
+
         expected_types = {
             'command': {
                 'arguments': str,
@@ -4103,16 +4109,22 @@ class FlowIR(object):
             'workflowAttributes': {
                 'restartHookFile': str,
                 'replicate': int,
-                'aggregate': bool,
-                'isMigratable': bool,
-                'isMigrated': bool,
+                'aggregate': to_bool,
+                'isMigratable': to_bool,
+                'isMigrated': to_bool,
                 'repeatInterval': int,
                 'repeatRetries': int,
-                'isRepeat': bool,
+                'isRepeat': to_bool,
                 # VV: when maxRestarts is None, the Engine/RepeatingEngine objects decides max number of restarts
                 'maxRestarts': optional_int,
+                'memoization': {
+                    'disable': {
+                        'strong': to_bool,
+                        'fuzzy': to_bool,
+                    },
+                },
                 'optimizer': {
-                    'disable': bool,
+                    'disable': to_bool,
                     'exploitChance': float,
                     'exploitTarget': float,
                     'exploitTargetLow': float,
